@@ -260,7 +260,7 @@ func CheckPairs(run *report.Run, ps PairSpec, stream string, pairs []*PairCase) 
 			if c.RealS != c.ModelS && known == "" && dis < 3 {
 				dis++
 				run.DisagreementsChecked++
-				if ps.Single != nil && ps.Opts != nil && !near && searchFalsifying(run, *ps.Single, *ps.Opts, *c.Cfg, c.Req) {
+				if ps.Single != nil && ps.Opts != nil && !near && searchFalsifying(run, *ps.Single, *ps.Opts, *c.Cfg, c.Req, BuildOpts{}) {
 					near = true // one falsifying input is enough; further disagreements are listed as such
 					continue
 				}
